@@ -25,21 +25,21 @@ fn spec(rng: &mut Rng, w: usize, h: usize, node_keep: u64, edge_keep: u64) -> Gr
 fn generate(rng: &mut Rng, tier: Tier, cases: &mut Vec<Case>) {
     let scale: usize = match tier {
         Tier::Quick => 1,
-        Tier::Thorough => 6,
+        Tier::Thorough => 5,
     };
-    // --- tiny graphs, every depth 1..6 and m in 1..3 (paths, squares, 2x3, 3x3)
-    for &(w, h) in &[(3usize, 1usize), (4, 1), (5, 1), (2, 2), (3, 2), (3, 3)] {
-        for r in 1..=4u32 {
-            for m in 1..=2usize {
+    // --- tiny graphs: every depth 1..5 x m in 1..3 (paths, squares, 2x3, 3x3, 4x2)
+    for &(w, h) in &[(3usize, 1usize), (4, 1), (5, 1), (2, 2), (3, 2), (3, 3), (4, 2)] {
+        for r in 1..=5u32 {
+            for m in 1..=3usize {
                 let s = spec(rng, w, h, 1000, 1000);
                 let g = gen_grid(rng, &s);
-                let b = *rng.pick(&[0.25, 0.1, 0.49, 0.3]);
+                let b = *rng.pick(&[0.25, 0.1, 0.49, 0.3, 0.5, 0.0]);
                 cases.push(make_case(rng, "tiny", r, m, b, &g, 255));
             }
         }
     }
     // --- grids with random deletions, moderate depth
-    for i in 0..(40 * scale) {
+    for i in 0..(240 * scale) {
         let (w, h) = match i % 4 {
             0 => (4 + rng.below(6) as usize, 4 + rng.below(6) as usize),
             1 => (8 + rng.below(10) as usize, 6 + rng.below(8) as usize),
@@ -49,14 +49,24 @@ fn generate(rng: &mut Rng, tier: Tier, cases: &mut Vec<Case>) {
         let (nk, ek) = (850 + rng.below(151), 800 + rng.below(201));
         let s = spec(rng, w, h, nk, ek);
         let g = gen_grid(rng, &s);
-        let r = 1 + rng.below(9) as u32;
+        let r = 1 + rng.below(10) as u32;
         let m = *rng.pick(&[1usize, 2, 3, 5, 8, 13, 20, 50]);
         let b = balance_factor(rng);
         cases.push(make_case(rng, "grid", r, m, b, &g, 255));
     }
+    // --- the root is always split, also when it has at most m nodes
+    for _ in 0..(12 * scale) {
+        let (w, h) = (2 + rng.below(4) as usize, 2 + rng.below(4) as usize);
+        let s = spec(rng, w, h, 1000, 950);
+        let g = gen_grid(rng, &s);
+        let m = g.coords.len() + rng.below(3) as usize;
+        let r = 1 + rng.below(31) as u32;
+        let b = balance_factor(rng);
+        cases.push(make_case(rng, "root-small", r, m, b, &g, 255));
+    }
     // --- thin graphs (paths, ladders) with small b: one contracted node per end, deep recursion up to 31
-    for i in 0..(24 * scale) {
-        let len = 20 + rng.below(50) as usize;
+    for i in 0..(60 * scale) {
+        let len = 20 + rng.below(60) as usize;
         let h = 1 + (i % 3 == 2) as usize;
         let s = spec(rng, len, h, 1000, if h == 1 { 1000 } else { 900 });
         let g = gen_grid(rng, &s);
@@ -65,37 +75,39 @@ fn generate(rng: &mut Rng, tier: Tier, cases: &mut Vec<Case>) {
         let b = *rng.pick(&[0.01, 0.02, 0.03, 0.1]);
         cases.push(make_case(rng, "thin-deep", r, m, b, &g, 255));
     }
-    // --- every depth 1..31 once on a medium grid (padding by r - level - 1 for every r)
-    for r in 1..=31u32 {
-        let (w, h) = (6 + rng.below(4) as usize, 5 + rng.below(4) as usize);
-        let s = spec(rng, w, h, 950, 900);
-        let g = gen_grid(rng, &s);
-        let m = *rng.pick(&[2usize, 4, 6]);
-        let b = balance_factor(rng);
-        cases.push(make_case(rng, "all-depths", r, m, b, &g, 255));
+    // --- every depth 1..31 on medium grids (padding by r - level - 1 for every r)
+    for rep in 0..(3 * scale) {
+        for r in 1..=31u32 {
+            let (w, h) = (6 + rng.below(5) as usize, 5 + rng.below(5) as usize);
+            let s = spec(rng, w, h, 950, 900);
+            let g = gen_grid(rng, &s);
+            let m = *rng.pick(&[2usize, 4, 6]);
+            let b = balance_factor(rng);
+            cases.push(make_case(rng, if rep == 0 { "all-depths" } else { "all-depths-more" }, r, m, b, &g, 255));
+        }
     }
     // --- balance factors at the ends of the accepted range (command line accepts 0 ..= 0.5)
-    for i in 0..(8 * scale) {
-        let (w, h) = (4 + rng.below(5) as usize, 4 + rng.below(5) as usize);
+    for i in 0..(40 * scale) {
+        let (w, h) = (4 + rng.below(7) as usize, 4 + rng.below(7) as usize);
         let s = spec(rng, w, h, 950, 900);
         let g = gen_grid(rng, &s);
         let b = if i % 2 == 0 { 0.5 } else { 0.0 };
-        let (r, m) = (1 + rng.below(6) as u32, 1 + rng.below(5) as usize);
+        let (r, m) = (1 + rng.below(8) as u32, 1 + rng.below(5) as usize);
         cases.push(make_case(rng, "b-edge", r, m, b, &g, 255));
     }
     // --- larger grids
     let big = match tier {
-        Tier::Quick => 3,
-        Tier::Thorough => 10,
+        Tier::Quick => 16,
+        Tier::Thorough => 40,
     };
     for i in 0..big {
         let (w, h) = match tier {
-            Tier::Quick => (18 + rng.below(3) as usize, 18 + rng.below(3) as usize),
+            Tier::Quick => (16 + rng.below(5) as usize, 16 + rng.below(5) as usize),
             Tier::Thorough => {
-                if i < 3 {
+                if i < 6 {
                     (45 + rng.below(10) as usize, 40 + rng.below(10) as usize)
                 } else {
-                    (25 + rng.below(10) as usize, 25 + rng.below(10) as usize)
+                    (22 + rng.below(14) as usize, 22 + rng.below(14) as usize)
                 }
             }
         };
@@ -107,7 +119,7 @@ fn generate(rng: &mut Rng, tier: Tier, cases: &mut Vec<Case>) {
         cases.push(make_case(rng, "grid-large", r, m, b, &g, 255));
     }
     // --- denser graphs (diagonals, chords): a cut may exceed the cell's node count; the level clause is not claimed
-    for _ in 0..(12 * scale) {
+    for _ in 0..(60 * scale) {
         let (w, h) = (4 + rng.below(8) as usize, 4 + rng.below(8) as usize);
         let mut s = spec(rng, w, h, 950, 950);
         s.diag = 500 + rng.below(501);
@@ -117,6 +129,16 @@ fn generate(rng: &mut Rng, tier: Tier, cases: &mut Vec<Case>) {
         let m = *rng.pick(&[1usize, 2, 4, 8]);
         let b = balance_factor(rng);
         cases.push(make_case(rng, "dense", r, m, b, &g, 255));
+    }
+    // --- not road-like at all: near-complete graphs, every axis' cut exceeds the node count of the (root) cell
+    for _ in 0..(24 * scale) {
+        let n = 5 + rng.below(14) as usize;
+        let p = 500 + rng.below(501);
+        let g = gen_dense(rng, n, p);
+        let r = 1 + rng.below(6) as u32;
+        let m = *rng.pick(&[1usize, 2, 4]);
+        let b = balance_factor(rng);
+        cases.push(make_case(rng, "dense-over", r, m, b, &g, 255));
     }
 }
 
